@@ -253,6 +253,23 @@ theorem advance_to_now_counter :
   refine ⟨rfl, rfl, ?_⟩
   simp [counterState, St.enqueue, PQ.enqueue]
 
+/-! ## AS-IS deviation (proposed known finding C28-sleep-past-target)
+
+An action that calls `sleep()` past the target of the `advance_to` that runs it: the loop ends with the
+clock beyond the target and the epilogue `self._clock = dt` moves it BACK.  This is why `clock_monotone` /
+`log_clock_sorted` over scripts assume that no action sleeps (`clock_monotone_loop` needs no such
+assumption: inside the loop the clock only grows). -/
+def sleeper : St := ({ clock := 0 } : St).enqueue 1 1 (.sleep 10 .done) false
+
+/-- **sleep_past_target_counter.** clock 0; action 1 (due 1) sleeps 10; `advance_to(5)`: the action runs at
+clock 1, the loop ends with the clock at 11, and `advance_to` returns normally with the clock at 5. -/
+theorem sleep_past_target_counter :
+    (loop {} (some 5) { sleeper with enabled := true }).1.clock = 11 ∧
+    (advanceTo {} 5 sleeper).2 = .ok ∧ (advanceTo {} 5 sleeper).1.clock = 5 ∧
+    (advanceTo {} 5 sleeper).1.log.map (fun r => (r.id, r.at_)) = [(1, 1)] := by
+  rw [advanceTo_eq_fuel {} 10 5 sleeper (by decide), loop_eq_loopFuel {} (some 5) 10 _ (by decide)]
+  decide
+
 /-! ## Non-vacuity -/
 
 /-- three entries with due times 5,3,3 (enqueued in that order): the first of the two 3s comes out -/
